@@ -1,12 +1,9 @@
 import AcraModel.Props.C12
 import AcraModel.Props.C03
 import AcraModel.Props.C10
-<<<<<<< HEAD
 import AcraModel.Sql.MysqlComment
-=======
 import AcraModel.Props.C13
 import AcraModel.Sql.TokenizerLoop
->>>>>>> wt-btok
 /-!
 # C14 — no input can crash a handler or make it consume unbounded resources
 
